@@ -39,6 +39,19 @@ pub fn run(ctx: &Ctx) -> Report {
     for t in corpus() {
         terms.push(t);
     }
+    // exhaustive small terms (closed and with one free index)
+    let max_size = arg_usize("--exhaustive", if ctx.thorough { 5 } else { 4 });
+    let mut memo = std::collections::HashMap::new();
+    let mut exhaustive = 0u64;
+    for sz in 1..=max_size {
+        for t in gen::enumerate(sz, 0, &mut memo).iter() {
+            terms.push(t.clone());
+            exhaustive += 1;
+        }
+    }
+    rep.count_n("exhaustive-terms", exhaustive);
+    rep.notes.push(format!("exhaustive enumeration of all terms of size ≤ {} over the small alphabet: {} terms", max_size, exhaustive));
+    let n = n + terms.len();
     while terms.len() < n {
         let k = *rng.pick(&[K::Int, K::Bytes, K::Bool, K::Data, K::Any, K::ListData, K::Str]);
         let depth = 1 + rng.below(5);
